@@ -129,7 +129,7 @@ PROPS["C07"] = {
 TREE_TRUST = ["cobra/pflag argument handling, filepath.WalkDir/Glob and os.WriteFile are not modelled: the model works on the list of regular files in WalkDir order; the correspondence runs compare the changed files and the exit status of the binary with the model on generated trees",
               "symbolic links, permissions and concurrent modification are outside; the snapshots cover the scratch directory (CRS root plus a sibling tree outside it)"]
 PROPS["C08"] = {
-    "suites": ["tree_all", "tree_frame"],
+    "suites": ["tree_all", "tree_frame", "tree_faults"],
     "trusted": GEN_TRUST + TREE_TRUST,
     "level_text": "Kernel-checked theorems about Model/Cli.v and the assembler model for all trees, walks and per-file behaviours: a run does not read the package-level processor state an earlier run left; format --all leaves every selected file exactly as formatting it alone would and every other file untouched, for every order of the walk; update --all writes rules files only, so what generate reads for one assembly file is never changed by processing another. Tied by pins, by tree-level differential runs of update/format/renumber/copyright --all against the model (changed files byte for byte, exit status) and by the oracle: --all on one copy of a generated tree vs. every order of single invocations on other copies (whole-tree bytes; multiset of per-rule lines for compare).",
     "level_note": "Trusted as C01/C15. The commutation of single-rule updates within one rules file is decided per generated tree (all orders, <= 6), not by a theorem: the line locator can be confused by regex text (see C11).",
